@@ -421,6 +421,16 @@ def choice_feasible(body, choice, use):
     return False
 
 
+def variant_mismatch(e):
+    """does the value project variant V out of an aggregate that was built as another variant W (`(Enum::W{..} as V).0`)?  Such a
+    value belongs to a combination of reaching definitions that no execution has"""
+    if not isinstance(e, tuple):
+        return False
+    if len(e) >= 3 and e[0] == "variant" and isinstance(e[1], tuple) and e[1] and e[1][0] == "agg" and isinstance(e[1][2], str) and isinstance(e[2], str) and e[1][2] != e[2]:
+        return True
+    return any(variant_mismatch(x) for x in e if isinstance(x, tuple))
+
+
 def split_eval(sym, bb, idx, fn, limit=24):
     """split_rows for an arbitrary evaluation `fn(view)` (e.g. the value of a call with its arguments)"""
     out = []
@@ -431,7 +441,7 @@ def split_eval(sym, bb, idx, fn, limit=24):
         val = fn(v)
         amb = {l: pts for l, pts in v.ambiguous.items() if l not in ch}
         if not amb:
-            if choice_feasible(sym.body, ch, (bb, idx)):
+            if choice_feasible(sym.body, ch, (bb, idx)) and not variant_mismatch(val):
                 out.append((ch, val))
             continue
         l = sorted(amb)[0]
